@@ -529,6 +529,8 @@ structure Table where
   finalizeGen : Nat := 0
   segMin : Int
   segMax : Int
+  inclStart : Bool := true     -- `segmentTimeRange.IncludeStart` / `IncludeEnd`; production segments are [start, end)
+  inclEnd : Bool := true
   grace : Int
 
 def Part.count (p : Part) : Nat := p.spans.length
@@ -601,16 +603,39 @@ def guardMaxConfirmedDrops : Int := 262144
 def outsideParts (parts sel : List Part) : List Part :=
   parts.filter fun p => decide (p.count > 0) && !(sel.any fun q => q.ident == p.ident)
 
+/-- `timestamp.TimeRange` as the guard sees it (`Start.IsZero()` / `End.IsZero()` as flags). -/
+structure SegRange where
+  start : Int
+  end_ : Int
+  inclStart : Bool
+  inclEnd : Bool
+  startZero : Bool := false
+  endZero : Bool := false
+
+/-- `traceFragmentCoverage`: first and last instant the segment can hold, and whether that is known. -/
+def coverageOf (r : SegRange) : Int × Int × Bool :=
+  if r.startZero || r.endZero || !decide (r.start < r.end_) then (0, 0, false)
+  else
+    let mn := if !r.inclStart then satAdd r.start 1 else r.start
+    let mx := if !r.inclEnd then satSub r.end_ 1 else r.end_
+    (mn, mx, decide (mn ≤ mx))
+
+/-- `traceFragmentCoverageHasInterior`. -/
+def coverageHasInterior (mn mx grace : Int) : Bool :=
+  if grace < 0 ∨ mn > mx then false else decide (satAdd mn grace ≤ satSub mx grace)
+
+def Table.segRange (t : Table) : SegRange :=
+  { start := t.segMin, end_ := t.segMax, inclStart := t.inclStart, inclEnd := t.inclEnd }
+
 /-- what `newTraceFragmentGuardSession` builds: config + catalogue, or `none` (session nil). -/
 def guardSession (mc : FilterOracle) (t : Table) (sel : List Part) : Option (GConfig × GCatalog) :=
   let selectedComplete := !sel.isEmpty && sel.all fun p => (gpartOf mc p).known
   let outside := (outsideParts t.parts sel).map (gpartOf mc)
-  let covKnown := decide (t.segMin < t.segMax)
-  let interior := decide (t.grace ≥ 0) && decide (satAdd t.segMin t.grace ≤ satSub t.segMax t.grace)
-  if !selectedComplete || !covKnown || !interior || (partsValidation outside).isSome then none
+  let cov := coverageOf t.segRange
+  if !selectedComplete || !cov.2.2 || !coverageHasInterior cov.1 cov.2.1 t.grace || (partsValidation outside).isSome then none
   else some (
     { grace := t.grace, maxProbes := guardMaxBloomProbes, maxDrops := guardMaxConfirmedDrops },
-    { pinned := true, parts := outside, baseEpoch := t.epoch, covMin := t.segMin, covMax := t.segMax,
+    { pinned := true, parts := outside, baseEpoch := t.epoch, covMin := cov.1, covMax := cov.2.1,
       gap := t.grace, complete := true, covKnown := true, temporal := 1 })
 
 /-- sampler decision table entry for one trace id: K keep, D drop, E error, P panic, L length mismatch. -/
@@ -1031,6 +1056,10 @@ def NoFalseNegatives (mc : FilterOracle) : Prop := ∀ (p : Part) (s : Span), s 
     fragments of one trace are never farther apart than the merge grace, in event time. -/
 def GapBounded (grace : Int) (spans : List Span) : Prop :=
   ∀ s ∈ spans, ∀ s' ∈ spans, s.tid = s'.tid → s'.ts ≤ s.ts + grace
+
+/-- the instants a segment can hold, per its `IncludeStart` / `IncludeEnd` flags. -/
+def SegRange.holds (r : SegRange) (ts : Int) : Prop :=
+  (if r.inclStart then r.start ≤ ts else r.start < ts) ∧ (if r.inclEnd then ts ≤ r.end_ else ts < r.end_)
 
 def Int64Spans (spans : List Span) : Prop := ∀ s ∈ spans, minI64 ≤ s.ts ∧ s.ts ≤ maxI64
 
